@@ -152,6 +152,8 @@ def fifo_oracle(ops, out, overwrite=False):
                 sem += 1
             elif res == "EAGAIN" and not overwrite:
                 fits = sum(len(c) // 2 + 16 for c in q) + n + 16 <= S
+                if not q and n <= S:
+                    return "op %d: write of %d bytes refused by an EMPTY ring created for S=%d" % (i, n, S)
                 if fits:
                     return "op %d: write of %d bytes refused although %d unread chunks + it fit in S=%d with 16 bytes overhead each" % (i, n, len(q), S)
             elif overwrite and n > S and res in ("EINVAL", "EAGAIN"):
